@@ -14,11 +14,11 @@ func smallWorld(strategy string) *Case {
 	s := &hx.Schema{Types: []*hx.TypeDef{
 		{Kind: hx.KEnum, Name: "E0", Values: []*hx.EnumValue{{Name: "RED"}, {Name: "GREEN"}}},
 		{Kind: hx.KObject, Name: "T0", Fields: []*hx.Field{{Name: "a", Type: hx.Named("Int")}, {Name: "e", Type: hx.Named("E0")}, {Name: "o", Type: hx.Named("T0")}}},
-		{Kind: hx.KObject, Name: "Query", Fields: []*hx.Field{{Name: "c", Type: hx.ListOf(hx.Named("T0"))}, {Name: "d", Type: hx.Named("T0")}}},
+		{Kind: hx.KObject, Name: "Query", Fields: []*hx.Field{{Name: "c", Type: hx.ListOf(hx.Named("T0"))}, {Name: "d", Type: hx.Named("T0")}, {Name: "z", Type: hx.ListOf(hx.Named("T0"))}}},
 	}}
 	g := &hx.Graph{Root: 0, Nodes: []*hx.Node{
 		{ID: 0, Type: "", F: map[string]hx.Val{"query": hx.Ref(1)}},
-		{ID: 1, Type: "Query", F: map[string]hx.Val{"c": hx.List(hx.Ref(2), hx.Ref(3)), "d": hx.Ref(3)}},
+		{ID: 1, Type: "Query", F: map[string]hx.Val{"c": hx.List(hx.Ref(2), hx.Ref(3)), "d": hx.Ref(3), "z": hx.List()}},
 		{ID: 2, Type: "T0", F: map[string]hx.Val{"a": hx.I32(1), "e": hx.Str("RED"), "o": hx.Ref(3)}},
 		{ID: 3, Type: "T0", F: map[string]hx.Val{"a": hx.Str("abc"), "e": hx.Str("BOGUS"), "o": hx.Ref(2)}},
 	}}
@@ -37,8 +37,8 @@ func smallWorld(strategy string) *Case {
 	return c
 }
 
-func knownCases() map[string]*Case {
-	out := map[string]*Case{}
+func knownCases() map[string]interface{} {
+	out := map[string]interface{}{}
 	// failure (a non numeric string for an Int) inside a named fragment
 	c := smallWorld("R")
 	c.Doc = &hx.Doc{
@@ -56,6 +56,17 @@ func knownCases() map[string]*Case {
 	c.Op = "Q"
 	c.Note = "resolver returns \"BOGUS\" for a field of enum E0 {RED GREEN}"
 	out["KF-C05-enum-undeclared"] = c
+	// undefined field beneath an empty list: never resolved, never reported
+	base := smallWorld("R")
+	base.Doc = &hx.Doc{Ops: []*hx.Op{{Type: "query", Name: "Q", Sels: []*hx.Sel{{Kind: "field", Name: "z", Sels: []*hx.Sel{{Kind: "field", Name: "a"}}}}}}}
+	base.Doc.Number()
+	base.Op = "Q"
+	bad := smallWorld("R")
+	bad.Doc = &hx.Doc{Ops: []*hx.Op{{Type: "query", Name: "Q", Sels: []*hx.Sel{{Kind: "field", Name: "z", Sels: []*hx.Sel{{Kind: "field", Name: "a"}, {Kind: "field", Alias: "dfct", Name: "zzz"}}}}}}}
+	bad.Doc.Number()
+	bad.Op = "Q"
+	bad.Note = "unknown-field \"zzz\" beneath the empty list z"
+	out["KF-C10-lazy-validation"] = &c10Case{Case: bad, Base: base, Defect: Defect{Kind: "unknown-field", Name: "zzz", Key: "dfct", Con: "T0", ConKind: "object", Depth: 2}}
 	return out
 }
 
